@@ -902,7 +902,7 @@ where
      * ```
      */
     #[inline]
-    pub fn unary(&self, fx: impl Fn(T) -> T, dfx_dx: impl Fn(T) -> T) -> Record<T> {
+    pub fn unary(&self, fx: impl Fn(T) -> T, dfx_dx: impl Fn(T) -> T) -> Record<'a, T> {
         match self.history {
             None => Record {
                 number: fx(self.number.clone()),
@@ -957,7 +957,7 @@ where
         fxy: impl Fn(T, T) -> T,
         dfxy_dx: impl Fn(T, T) -> T,
         dfxy_dy: impl Fn(T, T) -> T,
-    ) -> Record<T> {
+    ) -> Record<'a, T> {
         assert!(
             record_operations::same_list(self, rhs),
             "Records must be using the same WengertList"
